@@ -42,6 +42,7 @@ NamesOf(r) ==
 Interesting == {"name", "given", "family", "use", "telecom", "rank", "value", "system", "identifier", "extension", "url", "period", "start",
                 "active", "contact", "relationship", "text", "gender", "birthDate", "communication", "preferred", "language", "address", "line",
                 "city", "generalPractitioner", "reference", "display", "maritalStatus", "coding", "code", "id", "meta", "lastUpdated", "tag"}
+ValueOfFld(x, f) == LET r == FocusOf(Fld(x, f)) IN IF r.k = "ok" THEN r.items ELSE <<>>
 FieldsFor(x) == LET ns == NamesOf(FocusOf(x)) IN (ns \cap Interesting) \cup (IF ns = {} THEN {} ELSE {"zz"})
 
 (* small expressions over $this for items that have the element names fs *)
@@ -56,7 +57,7 @@ NCat == 12
 StepCat(x, c) ==
   LET fs == FieldsFor(x)
       sub(f) == NamesOf(FocusOf(Fld(x, f))) \cap Interesting        \* names one level further down, for nested criteria
-      f1 == IF fs \ {"zz"} = {} THEN "zz" ELSE RandomElement(fs \ {"zz"})
+      f1 == IF fs \ {"zz"} = {} THEN "zz" ELSE CHOOSE f \in fs \ {"zz"} : \A g \in fs \ {"zz"} : Len(ValueOfFld(x, f)) >= Len(ValueOfFld(x, g))   \* the element with most items
   IN CASE c = 1 -> {Fld(x, f) : f \in fs}
        [] c = 2 -> {Call(x, g, <<>>) : g \in {"first", "last", "tail", "count", "empty", "exists", "distinct", "isDistinct", "not", "allTrue", "anyFalse"}}
        [] c = 3 -> {Call(x, g, <<Lit1(I(n))>>) : g \in {"skip", "take"}, n \in -1..3} \cup {Ix(x, n) : n \in 0..2}
